@@ -180,3 +180,10 @@ Definition uint_from_le_slice (nbytes : N) (bs : bytes) : outcome N :=
   if le_val bs <? 256 ^ nbytes then Ok (le_val bs) else Panic.
 Definition vec_try_from_iter {A} (l : list A) : outcome (list A) := Ok l.
 Definition smallvec_try_from_iter {A} (l : list A) : outcome (list A) := Ok l.
+
+(** [v.remove(i)]: the element and the vector without it; panics when [i] is out of range *)
+Definition vec_remove {A} (l : list A) (i : N) : outcome (A * list A) :=
+  match nth_error l (N.to_nat i) with
+  | Some x => Ok (x, firstn (N.to_nat i) l ++ skipn (S (N.to_nat i)) l)
+  | None => Panic
+  end.
